@@ -274,13 +274,44 @@ def equal_by_cases(lhs, rhs, box, seed, hyp=None, ints=(), npoints=8, max_conds=
             if v2.status == be.PROVED:
                 last = v2
                 continue
+            # the two sides may differ only syntactically, through min / max that the case's own literals decide
+            # (p < p_b makes min(p, p_b) the same as p): resolve those under the literals and try again
+            l3, r3 = resolve_extrema(l2, lits), resolve_extrema(r2, lits)
+            if l3 is r3:
+                last = be.Verdict(be.PROVED, "CAS+SMT", detail="identical terms after resolving min/max under the case literals")
+                continue
+            if l3 is not l2 or r3 is not r2:
+                v3 = be.prove_equal_cas(l3, r3, box, hyp=None, seed=seed, npoints=npoints, ints=ints)
+                if v3.status == be.PROVED:
+                    last = v3
+                    continue
             wit = dict(model or {})
             wit["boundary_case"] = [str(x) for x in lits]
-            return be.Verdict(be.REFUTED, "CAS+SMT", witness=wit, detail=f"in the boundary case {' and '.join(str(x)[:80] for x in lits)} the two sides are different terms: {str(l2)[:120]}  vs  {str(r2)[:120]}")
+            # no numeric point separates the sides here (the case has measure zero in the box) and no symbolic proof was found:
+            # that is 'not established', not a refutation - the replay evaluates the real code AT the boundary and decides
+            return be.Verdict(be.UNKNOWN, "CAS+SMT", witness=wit, detail=f"in the boundary case {' and '.join(str(x)[:80] for x in lits)} the two sides are different terms and no proof of their equality was found: {str(l2)[:120]}  vs  {str(r2)[:120]}")
         if v.status != be.PROVED:
             return v
         last = v
     return last or be.Verdict(be.UNKNOWN, "CAS", detail="no case could be evaluated")
+
+
+def resolve_extrema(t, lits):
+    """replace min(a, b) / max(a, b) by the argument the literals select (decided by SMT over the literals with nonlinear
+    sub-terms abstracted: a sound weakening); anything undecided is left as it is"""
+    nodes = [nd for nd in tm.postorder(t) if nd.op in ("min", "max") and len(nd.args) == 2 and all(a.sort != tm.B for a in nd.args)]
+    if not nodes:
+        return t
+    sub = {}
+    for nd in nodes[:8]:
+        a, b = nd.args
+        for first, second, pick in ((a, b, a if nd.op == "min" else b), (b, a, b if nd.op == "min" else a)):
+            ab, amap = abstract_nonlinear(list(lits) + [tm.lnot(tm.le(first, second))])
+            sat, _ = be.check_sat(ab, timeout_ms=2000)
+            if sat is False:      # lits |= first <= second
+                sub[nd] = pick
+                break
+    return tm.subst(t, sub) if sub else t
 
 
 def paths_split_on(outs, c, abstract=None):
